@@ -9,7 +9,7 @@ OUTSIDE = ["rounding-induced cycles (the progress tests are floating-point tests
            "smooth colliders", "self_collision.detect (see C06)"]
 BOUNDS = {"quick": "11 entry points x 9 polytope pairs (identical, nested 1e4, needle 1e4, flat, segment, point, duplicated vertices) x 1 of 3 translation sweeps through identical / coplanar / lattice placements, plus the same collider object passed twice; unwinding bound 128 support evaluations per path (exceeding it is reported and replayed, never truncated silently)",
           "thorough": "all sweeps"}
-WALL_BUDGET = {"quick": 420, "thorough": 900}
+WALL_BUDGET = {"quick": 300, "thorough": 600}
 EXPECTED_EXCEPTIONS = ()
 
 
